@@ -50,6 +50,89 @@ func (h *nfsHarness) stepReopen(step int, c *nfsClient) {
 	}
 }
 
+// ---- unlock everything, drop the lock state, lock again ----------------------
+
+// stepLifecycle takes lock state that still holds locks through its whole
+// life in one step: LOCKU of the entire file (the last lock goes away), then
+// FREE_STATEID (v4.1) or RELEASE_LOCKOWNER (v4.0), then a fresh LOCK by the
+// same lock-owner, which has to start from nothing.
+func (h *nfsHarness) stepLifecycle(step int, c *nfsClient, pShared int) {
+	var k lockKey
+	found := false
+	for _, cand := range sortedLockKeys(c) {
+		if h.models[cand.file].holdsAny(h.ownerID(c, cand.lo)) {
+			k, found = cand, true
+			if h.rng.IntN(2) == 0 {
+				break
+			}
+		}
+	}
+	if !found {
+		h.stepLock(step, c, pShared)
+		return
+	}
+	whole := nfsRange{Offset: 0, Length: maxU64, valid: true, cr: cellRange{0, nCells}, Shape: "all-ones"}
+	ures, ce := c.locku(k.oo, k.file, k.lo, whole.Offset, whole.Length)
+	if ce != nil {
+		h.clientFailed(c, ce)
+		return
+	}
+	if !h.judgeLockU(step, c, k, whole, ures, "LOCKU") {
+		return
+	}
+	owner := h.ownerID(c, k.lo)
+	if c.minor == 1 {
+		st, ce := c.freeStateID(k)
+		if ce != nil {
+			h.clientFailed(c, ce)
+			return
+		}
+		h.log(step, c, "FREE_STATEID", fmt.Sprintf("oo=%s file=%d lo=%s", k.oo, k.file, k.lo), fmt.Sprintf("status=%d", st), "status=0")
+		if st != nfsv4_xdr.NFS4_OK {
+			h.fail("C20 "+h.tag()+" free-stateid-status held=false minor=1", fmt.Sprintf("step %d: FREE_STATEID of lock state of %s on file %d, whose last lock was just released by LOCKU, returned status %d", step, h.ownerName(owner), k.file, st), nil)
+			return
+		}
+		h.emptiedBy[h.routeKey(c, k.lo, k.file)] = "free-stateid"
+		h.situations["last-lock-gone-by:free-stateid"] = true
+	} else {
+		held := false
+		for _, m := range h.models {
+			held = held || m.holdsAny(owner)
+		}
+		st, ce := c.releaseLockOwner(k.lo)
+		if ce != nil {
+			h.clientFailed(c, ce)
+			return
+		}
+		want := nfsv4_xdr.NFS4_OK
+		if held {
+			want = nfsv4_xdr.NFS4ERR_LOCKS_HELD
+		}
+		h.log(step, c, "RELEASE_LOCKOWNER", k.lo, fmt.Sprintf("status=%d", st), fmt.Sprintf("status=%d", want))
+		if st != want {
+			h.fail("C20 "+h.tag()+" release-lockowner-status held="+fmt.Sprint(held), fmt.Sprintf("step %d: RELEASE_LOCKOWNER of %s (holds locks on another file: %v) returned status %d, expected %d", step, h.ownerName(owner), held, st, want), nil)
+			return
+		}
+		if st == nfsv4_xdr.NFS4_OK {
+			h.emptiedBy[h.routeKey(c, k.lo, k.file)] = "release-lockowner"
+			h.situations["last-lock-gone-by:release-lockowner"] = true
+		}
+	}
+	// Lock again through the same open.
+	lc := lockCtx{what: "LOCK", oo: k.oo, f: k.file, lo: k.lo, owner: owner}
+	lc.nr = genNFSRange(h.rng)
+	lc.lt = genNFSLockType(h.rng, pShared, false)
+	lc.t, _ = nfsTypeOf(lc.lt)
+	h.fillLockRelations(c, &lc)
+	res, isNew, ce := c.lock(lc.oo, lc.f, lc.lo, lc.nr.Offset, lc.nr.Length, lc.lt, false)
+	if ce != nil {
+		h.log(step, c, lc.what, h.lockDetail(lc, isNew), ce.Error(), "")
+		h.clientFailed(c, ce)
+		return
+	}
+	h.judgeLock(step, c, lc, isNew, res)
+}
+
 // ---- retransmission (v4.0) -------------------------------------------------
 
 // retransmit remembers the last LOCK or LOCKU of a client, so that exactly
@@ -571,6 +654,35 @@ func (h *nfsHarness) staleBattery(step int) {
 				add("locku:current-stateid-unset", c, locku(c, ok2.file, currentStateID, nfsLockOwners[0]))
 				add("lock:current-stateid-unset", c, lockNew(c, ok2.file, ok2.oo, currentStateID, c.owner("lock-owner-stale"), 1))
 			}
+		}
+		if ks := sortedLockKeys(c); len(ks) > 0 {
+			// No current filehandle at all.
+			k := ks[0]
+			cc := c
+			add("lock:no-filehandle", c, func() (nfsv4_xdr.Nfsstat4, *clientError) {
+				st, _, ce := cc.raw("stale-lock", &nfsv4_xdr.NfsArgop4_OP_LOCK{Oplock: nfsv4_xdr.Lock4args{
+					Locktype: nfsv4_xdr.WRITE_LT, Offset: 0, Length: maxU64,
+					Locker: &nfsv4_xdr.Locker4_FALSE{LockOwner: nfsv4_xdr.ExistLockOwner4{LockStateid: cc.locks[k], LockSeqid: cc.lockSeq[k.lo]}},
+				}})
+				return st, ce
+			})
+			add("lock:new-form-no-filehandle", c, func() (nfsv4_xdr.Nfsstat4, *clientError) {
+				st, _, ce := cc.raw("stale-lock", &nfsv4_xdr.NfsArgop4_OP_LOCK{Oplock: nfsv4_xdr.Lock4args{
+					Locktype: nfsv4_xdr.WRITE_LT, Offset: 0, Length: maxU64,
+					Locker: &nfsv4_xdr.Locker4_TRUE{OpenOwner: nfsv4_xdr.OpenToLockOwner4{OpenSeqid: cc.ooSeq[k.oo], OpenStateid: cc.opens[openKey{k.oo, k.file}], LockSeqid: 1, LockOwner: cc.owner("lock-owner-stale")}},
+				}})
+				return st, ce
+			})
+			// State IDs that cannot have been issued by this server.
+			foreign := c.locks[k]
+			if c.minor == 0 {
+				foreign.Other[0] ^= 0xff // prefix of another server instance
+			} else {
+				foreign.Other[11] = 0x01 // v4.1 state IDs end in four zero bytes
+				add("free-stateid:malformed", c, free(c, foreign))
+			}
+			add("lock:foreign-stateid", c, lockExisting(c, k.file, foreign, k.lo))
+			add("lock:foreign-open-stateid", c, lockNew(c, k.file, k.oo, foreign, c.owner("lock-owner-stale"), 1))
 		}
 		{
 			cc := c
